@@ -191,11 +191,20 @@ func c15Classify(kind string, o int, base, got, want []tokRec) string {
 	return "differs-under-option-combination:" + kind
 }
 
+// lexeme vocabularies: quoted strings whose CONTENT is a symbol, comment opener, whitespace or number,
+// so that a decoded value could be mistaken for another token class
+var c15Lexemes = map[string][]string{
+	"generic":    {"a", "1", " ", "'<='", "'#'", "' '", "\"1\"", "''", "#", "<=", "\n", "\U0001F600", "-", "'"},
+	"expression": {"a", "1", " ", "'<='", "'/*'", "'*/'", "\"a b\"", "''", "/*", "*/", "<=", "\U0001F600", "'"},
+	"csv":        {"a", ",", "\",\"", "\"\"\"\"", "\"\r\n\"", "\r\n", "\n", " ", "\"", "я"},
+	"mustache":   {"a", "{{", "}}", "{{{", "}}}", "'}}'", "'{{'", "'}}}'", "\"}}\"", "' '", " ", "#", "x", "'"},
+}
+
 func init() {
 	fw.Register(&fw.Check{
 		ID:    "C15",
 		Level: "model_checking",
-		Rule: "4 tokenizers x every string up to the length bound over a 8..12-symbol alphabet (whitespace, comment opener, number, quotes, unknown character, multi-character symbol) x all 128 option sets; " +
+		Rule: "4 tokenizers x every string up to the length bound over a 8..12-symbol alphabet (whitespace, comment opener, number, quotes, unknown character, multi-character symbol) x all 128 option sets, plus every sequence of <=3 (thorough 4) lexemes from a vocabulary with quoted strings whose content is a symbol, comment opener or blank; " +
 			"oracle: stream(opts) == T(opts, stream(no options)) for a reference transformer that only drops/rewrites whole tokens; inputs whose option-free stream is itself broken are skipped and counted (C04); " +
 			"non-trivial = (input, option set) pairs on which T is not the identity",
 		Assume: []string{"C04 holds for the input (otherwise skipped)", "termination decided by the scanner step budget"},
@@ -216,13 +225,26 @@ func init() {
 					Run:  func(c *fw.Ctx, i int64) { c15Run(c, kind, stringByIndex(al, i), all) },
 					Repr: func(i int64) string { return fmt.Sprintf("%s tokenizer, input %q, all 128 option sets", kind, stringByIndex(al, i)) }})
 			}
+			lexLen := 3
+			if tier == "thorough" {
+				lexLen = 4
+			}
+			for _, kind := range tokKinds {
+				kind := kind
+				vocab := c15Lexemes[kind]
+				sp = append(sp, fw.Space{Name: kind + "-lexemes", N: countStrings(len(vocab), lexLen),
+					Run:  func(c *fw.Ctx, i int64) { c15Run(c, kind, strings.Join(lexemesByIndex(vocab, i), ""), all) },
+					Repr: func(i int64) string {
+						return fmt.Sprintf("%s tokenizer, input %q, all 128 option sets", kind, strings.Join(lexemesByIndex(vocab, i), ""))
+					}})
+			}
 			return sp
 		},
 		Bounds: func(tier string) string {
 			if tier == "thorough" {
-				return "strings len<=5 (csv len<=6) x 128 option sets x 4 tokenizers"
+				return "strings len<=5 (csv len<=6) and lexeme sequences len<=4 over 10-14 lexemes x 128 option sets x 4 tokenizers"
 			}
-			return "strings len<=4 (csv len<=5) x 128 option sets x 4 tokenizers"
+			return "strings len<=4 (csv len<=5) and lexeme sequences len<=3 over 10-14 lexemes x 128 option sets x 4 tokenizers"
 		},
 	})
 }
